@@ -444,6 +444,7 @@ func runOverlap(c Case) *pt.Failure {
 	var t2Rows []string
 	var t2Res atenv.BranchResult
 	locksAfterT2 := map[int]int{}
+	locksInT2 := map[int][]string{}
 	var t1res atenv.BranchResult
 	errT1End := errors.New("t1 decides to roll back")
 	xid1, _ := atenv.Global("c03-t1", func(cx1 context.Context) error {
@@ -497,7 +498,12 @@ func runOverlap(c Case) *pt.Failure {
 			default:
 				stmts = append(stmts, atenv.StmtText{SQL: "UPDATE " + tn + " SET v = v + 5 WHERE id = ?", Args: []interface{}{t2Row}})
 			}
-			t2Res = atenv.RunBranch(cx2, env.AT, c.T2Mode, "db", false, stmts)
+			t2Res = atenv.RunBranchOpt(cx2, env.AT, atenv.BranchOpts{Mode: c.T2Mode, Via: "db", Probe: func(i int, r atenv.StmtResult) {
+				// the local row locks inside T2's still open local transaction, right after its last statement
+				if i == len(stmts)-1 {
+					locksInT2 = env.Srv.LockedRows()
+				}
+			}}, stmts)
 			if t2Res.Failed() {
 				return errors.New(t2Res.FirstErr())
 			}
@@ -518,6 +524,24 @@ func runOverlap(c Case) *pt.Failure {
 	allowed := 0
 	if c.T1Phase == "open" {
 		allowed = 1 // T1's own connection
+	}
+	// a refused locking read gives back the row locks it took although the local transaction stays open:
+	// the connection that holds T2's earlier write (row 3) must not hold the refused row any more
+	if c.Overlap && c.T2Kind == "select_for_update" && c.T2Mode == "tx" && t2Err != nil {
+		for id, rows := range locksInT2 {
+			holds3, holdsRefused := false, false
+			for _, k := range rows {
+				if k == "i:3" {
+					holds3 = true
+				}
+				if k == fmt.Sprintf("i:%d", t2Row) {
+					holdsRefused = true
+				}
+			}
+			if holds3 && holdsRefused && t2Row != 3 {
+				return pt.Failf("C03/overlap/refused-read-keeps-row-lock", "the locking read of row %d was refused (%v) but connection %d still holds its row lock inside the open local transaction: %v\n%s", t2Row, t2Err, id, rows, info)
+			}
+		}
 	}
 	if len(locksAfterT2) > allowed {
 		return pt.Failf("C03/overlap/row-locks-left/"+c.T2Kind+"/"+c.T2Mode, "after T2 returned, connections still hold local row locks: %v\n%s", locksAfterT2, info)
